@@ -6,5 +6,6 @@ CONSTANTS
   Kinds = {"if", "try", "withsupp"}
   GenVars = {"x"}
   SimpleKinds = {"assign", "use", "call", "return"}
+  Shape = "any"
 INVARIANT InvC09
 CHECK_DEADLOCK FALSE
